@@ -438,6 +438,10 @@ class KeyExchange(object):
             signatureAlgorithm = getFirstMatching(validSigAlgs, serverSigAlgs)
             # if none acceptable, do a last resort:
             if signatureAlgorithm is None:
+                if not validSigAlgs:
+                    raise TLSInternalError("No signature algorithm usable "
+                                           "with the client certificate "
+                                           "is enabled")
                 signatureAlgorithm = validSigAlgs[0]
         verifyBytes = KeyExchange.calcVerifyBytes(version, handshakeHashes,
                                                   signatureAlgorithm,
